@@ -10,6 +10,8 @@ the distance-independent mode:
                duplicated under other names: exact chi2 ties)       -> same per model; rankings equal up to tie groups
  scale       : distance-independent package, every flux and error multiplied by c (8 decades)
                                                                     -> av, chi2 unchanged, every scale lowered by 0.5 log10 c
+ interleaved : two or three Fitters alive at once (cube packages with use_memmap on / off, per-file package), fits alternating
+               between them                                        -> every fit bit-identical to a fresh Fitter of its own package
  history     : up to 6 interleaved fits of up to 4 sources on one Fitter, digests of the fitter's arrays and of the
                source before/after every call                      -> nothing modified; every result bit-identical to the
                                                                        fit of that source alone on a fresh Fitter
@@ -39,7 +41,8 @@ RULE = ('cases = (kind, mode, package, sources, permutation | constant | history
         'history has a repeated or interleaved source; distinct = canonical hash of the generated inputs')
 REQUIRED_BRANCHES = ['fmt_files', 'fmt_cube_wav', 'fmt_cube_named', 'fmt_cube_mixed', 'memmap_on', 'memmap_off', 'remove_resolved',
                      'names_unsorted', 'filter_perm_cube', 'model_perm_cube', 'history_cube',
-                     'filter_perm', 'filter_perm_interior', 'same_theta_diff_tables', 'history_reassign', 'shared_extinction_object', 'model_perm', 'scale', 'history', 'mode_indep', 'mode_dist', 'tie_group',
+                     'filter_perm', 'filter_perm_interior', 'same_theta_diff_tables', 'history_reassign', 'interleaved',
+                     'interleaved_memmap_both', 'interleaved_mixed_storage', 'interleaved_perfile', 'zero_flux_model', 'shared_extinction_object', 'model_perm', 'scale', 'history', 'mode_indep', 'mode_dist', 'tie_group',
                      'scale_up', 'scale_down', 'limits_present', 'flag4_present', 'ignored_present', 'model_corr',
                      'history_repeat', 'history_interleaved']
 ASSUMPTIONS = ['IEEE rounding is not modelled: permuting filters changes the order of the floating-point sums, scaling changes '
@@ -57,10 +60,14 @@ ASSUMPTIONS = ['IEEE rounding is not modelled: permuting filters changes the ord
                'repeated here (the model still supplies the condition number)',
                'named filters of cube packages are convolved-flux files written next to flux.fits (what convolve_model_dir '
                'leaves behind; the convolution itself is C06/C07)',
+               'grids with an exactly-zero model flux (the marker for an invalid band) lie at the edge of the quantifier (C01/C02 grids '
+               'are strictly positive): they are included in the history / interleaved kinds with NaN-aware comparison; a difference '
+               'confined to the zero-flux model (or to the fitter arrays of such a grid) is reported without a verdict (violates=None), '
+               'a difference in a model with all-positive fluxes is a violation',
                'the source must not be modified (compared by digest before / after); whether FitInfo.source is the same object '
                'or a copy is not part of the property']
 EXHAUSTIVE = {'quick': False, 'thorough': True}
-N = {'quick': dict(filter_perm=24, model_perm=24, scale=30, history=24),
+N = {'quick': dict(filter_perm=24, model_perm=24, scale=30, history=24, interleaved=12),
      'thorough': dict(filter_perm=1800, model_perm=1800, scale=3000, history=1800)}
 FLAGS = [0, 1, 2, 3, 4, 9]
 
@@ -135,7 +142,7 @@ def gen_sources(rng, pkg, n):
 
 
 def gen_case(rng, kind, mode, perm=None, nb=None, nm=None, c=None, interior=False, fmt=None, memmap=None,
-             resolved=None, difftab=None):
+             resolved=None, difftab=None, zero=None, spec_override=None):
     perm_given = perm is not None
     nb = nb or rng.randint(2, 6)
     nm = nm or rng.randint(2 if kind == 'model_perm' else 1, 8)
@@ -220,6 +227,35 @@ def gen_case(rng, kind, mode, perm=None, nb=None, nm=None, c=None, interior=Fals
     # model names in no particular (in particular not alphabetical) order, as in real packages
     labels = ['%s%02d' % (rng.choice('zqmakxcb'), i) for i in range(nm)]
     case['names'] = labels
+    if zero is None:
+        zero = (kind in ('history', 'interleaved') and nm >= 2 and rng.random() < 0.35)
+    if zero and nm >= 2:
+        # the package's marker for "this model has no valid flux in this band": an exactly-zero model flux (edge of the
+        # quantifier of C01/C02; the sources above were drawn from the positive grid).  One model keeps all fluxes positive.
+        zi = rng.randrange(1, nm)
+        zj = sorted(rng.sample(range(nb), rng.randint(1, max(1, nb - 1))))
+        for j in zj:
+            case['models'][zi][j] = 0.
+        case['zero'] = [zi, zj]
+    if kind == 'interleaved':
+        # two or three Fitters alive at once; cube packages with use_memmap on (the default) / off, and a per-file package;
+        # every package has the same shape (models x distances x filters), fluxes rescaled and rows reversed
+        k = rng.choice([2, 2, 3])
+        specs = [dict(fmt=rng.choice(['cube_wav', 'cube_named', 'cube_mixed']), memmap=True, scale=1., reverse=False),
+                 dict(fmt=rng.choice(['cube_wav', 'cube_wav', 'cube_mixed']), memmap=(rng.random() < 0.6),
+                      scale=float('%.3g' % (10 ** rng.uniform(-1.5, 1.5))), reverse=True)]
+        if k == 3:
+            specs.append(dict(fmt=rng.choice(['files', 'cube_wav']), memmap=(rng.random() < 0.5),
+                              scale=float('%.3g' % (10 ** rng.uniform(-1.5, 1.5))), reverse=False))
+        if spec_override is not None:
+            specs = spec_override
+        case['fitters'] = specs
+        ns = len(case['sources'])
+        plan = [[0, 0]]
+        for t in range(rng.randint(3, 6)):
+            plan.append([(t + 1) % len(specs) if rng.random() < 0.8 else rng.randrange(len(specs)), rng.randrange(ns)])
+        plan.append([0, 0])
+        case['plan'] = plan
     return case
 
 
@@ -262,7 +298,20 @@ def gen_cases(seed, tier):
                         else:
                             yield gen_case(rng, kind, mode, perm=list(perm), nm=n)
                         i += 1
-    for kind in ('filter_perm', 'model_perm', 'scale', 'history'):
+    # directed: interleaved fitters (both storages on, mixed storages + per-file), histories on packages with a zero flux
+    both_on = [dict(fmt='cube_wav', memmap=True, scale=1., reverse=False), dict(fmt='cube_named', memmap=True, scale=7.3, reverse=True)]
+    mixed = [dict(fmt='cube_mixed', memmap=True, scale=1., reverse=False), dict(fmt='cube_wav', memmap=False, scale=0.21, reverse=True),
+             dict(fmt='files', memmap=False, scale=3.9, reverse=False)]
+    for kind, mode, extra in (('interleaved', 'indep', dict(spec_override=both_on)), ('interleaved', 'dist', dict(spec_override=both_on)),
+                              ('interleaved', 'dist', dict(spec_override=mixed)), ('interleaved', 'indep', dict(spec_override=mixed, zero=True)),
+                              ('history', 'indep', dict(zero=True, fmt='files')), ('history', 'dist', dict(zero=True, fmt='cube_wav', memmap=True))):
+        rng = case_rng(seed, PID, 'd%d' % i)
+        case = gen_case(rng, kind, mode, nb=4, nm=4, **extra)
+        if kind == 'history':
+            case['history'] = [0, 1, 0, 0, 1]
+        yield case
+        i += 1
+    for kind in ('filter_perm', 'model_perm', 'scale', 'history', 'interleaved'):
         for _ in range(N[tier][kind]):
             rng = case_rng(seed, PID, i)
             mode = 'indep' if kind == 'scale' else rng.choice(['indep', 'dist'])
@@ -660,8 +709,41 @@ def same_bits(a, b):
     return None
 
 
+def differing_models(a, b):
+    """names of the models whose row (av, sc, chi2, predicted fluxes) differs bit for bit (NaN-aware) between two results"""
+    ia, ib = c03.by_name(a), c03.by_name(b)
+    out = set(ia) ^ set(ib)
+    for n in set(ia) & set(ib):
+        ra, rb = ia[n], ib[n]
+        same = all(np.array_equal(np.asarray(a[k][ra]), np.asarray(b[k][rb]), equal_nan=True)
+                   for k in ('av', 'sc', 'chi2', 'model_fluxes'))
+        if not same:
+            out.add(n)
+    return out
+
+
+def history_verdict(case, ref, got):
+    """(None, None) if the two results agree; otherwise (violates, description).  A difference confined to a model that has an
+    exactly-zero flux (edge of the quantifier: grids of C01/C02 are strictly positive) is reported without a verdict;
+    the ranking is compared after removing such models"""
+    names = names_of(case)
+    zero_names = {names[case['zero'][0]]} if case.get('zero') else set()
+    diff = differing_models(ref, got)
+    order_ref = [n for n in ref['name'] if n not in zero_names]
+    order_got = [n for n in got['name'] if n not in zero_names]
+    if not diff and ref['name'] == got['name']:
+        return None, None
+    bad = diff - zero_names
+    if bad or order_ref != order_got:
+        return True, 'models %r differ (%s)' % (sorted(bad) or 'ranking', same_bits(ref, got))
+    return None, ('only the model with a zero flux, %r, differs (%s) - at the edge of the quantifier, no verdict'
+                  % (sorted(zero_names), same_bits(ref, got)))
+
+
 def run_history(case, use_model, branches, stats, dirs):
     mode, hist = case['mode'], case['history']
+    if case.get('zero'):
+        branches.add('zero_flux_model')
     d = tempfile.mkdtemp(prefix='c11_'); dirs.append(d)
     write_package(case, d, mode)
     if len(set(hist)) < len(hist):
@@ -690,15 +772,17 @@ def run_history(case, use_model, branches, stats, dirs):
                               detail='history %r step %d (%s): Fitter.fit modified the source: now valid=%r flux=%r error=%r, '
                                      'given %r' % (hist, step, mode, src.valid.tolist(), src.flux.tolist(), src.error.tolist(),
                                                    case['sources'][i]))
-        if fitter_digest(f) != d0:
-            return CaseResult(False, violates=True,
-                              detail='history %r step %d (%s): Fitter.fit modified the fitter (digest of models.fluxes / av_law / '
-                                     'sc_law / filters changed)' % (hist, step, mode))
-        diff = same_bits(ref[i], got)
+        viol, diff = history_verdict(case, ref[i], got)
         if diff:
-            return CaseResult(False, violates=True,
+            return CaseResult(False, violates=viol,
                               detail='history %r step %d (%s): result for source %d differs from the fit of that source alone on a '
                                      'fresh Fitter: %s (source %r)' % (hist, step, mode, i, diff, case['sources'][i]))
+        if fitter_digest(f) != d0:
+            # with a zero flux in the grid the change may be confined to that entry: no verdict then
+            return CaseResult(False, violates=(None if case.get('zero') else True),
+                              detail='history %r step %d (%s): Fitter.fit modified the fitter (digest of models.fluxes / av_law / '
+                                     'sc_law / filters changed)%s' % (hist, step, mode,
+                                                                      ' [grid with a zero flux]' if case.get('zero') else ''))
     # the same Source objects, re-used after their valid / flux / error have been re-assigned: every fit must equal the fit of a
     # fresh Source with that content (nothing about a source may be remembered across calls)
     for i in sorted(set(hist)):
@@ -712,7 +796,72 @@ def run_history(case, use_model, branches, stats, dirs):
     return None
 
 
-RUNNERS = dict(filter_perm=run_filter_perm, model_perm=run_model_perm, scale=run_scale, history=run_history)
+def derived_case(case, spec):
+    """the package of one of the interleaved fitters: same shape, fluxes rescaled, rows (and names) reversed"""
+    c = dict(case)
+    idx = list(range(len(case['models'])))
+    if spec.get('reverse'):
+        idx.reverse()
+    c['models'] = [[x * spec['scale'] for x in case['models'][i]] for i in idx]
+    c['grow'] = [case['grow'][i] for i in idx]
+    c['names'] = [names_of(case)[i] for i in idx]
+    if case.get('zero'):
+        c['zero'] = [idx.index(case['zero'][0]), case['zero'][1]]
+    c['fmt'] = spec['fmt']
+    c['memmap'] = bool(spec['memmap']) and spec['fmt'] != 'files'
+    if spec['fmt'] == 'cube_mixed' and 'named' not in c:
+        c['named'] = [0]
+    c.pop('aps_by_filter', None)
+    return c
+
+
+def run_interleaved(case, use_model, branches, stats, dirs):
+    """several Fitters alive at once in one process, fits alternating between them: every fit must equal, bit for bit, the fit
+    by a fresh Fitter of its own package (same storage setting, hence the same float32 values when use_memmap is on)"""
+    mode, specs, plan = case['mode'], case['fitters'], case['plan']
+    if case.get('zero'):
+        branches.add('zero_flux_model')
+    mm = [bool(sp['memmap']) and sp['fmt'] != 'files' for sp in specs]
+    if mm.count(True) >= 2:
+        branches.add('interleaved_memmap_both')
+    if True in mm and False in mm:
+        branches.add('interleaved_mixed_storage')
+    if any(sp['fmt'] == 'files' for sp in specs):
+        branches.add('interleaved_perfile')
+    ext = make_ext(case)
+    cases, pdirs = [], []
+    for sp in specs:
+        c = derived_case(case, sp)
+        d = tempfile.mkdtemp(prefix='c11_'); dirs.append(d)
+        write_package(c, d, mode)
+        cases.append(c); pdirs.append(d)
+    # references first: a fresh fitter of the package, used once, then dropped
+    ref = {}
+    for k, si in plan:
+        if (k, si) not in ref:
+            ref[(k, si)] = fit(make_fitter(cases[k], pdirs[k], mode, ext=ext), case['sources'][si])
+    fitters, digests = [], []
+    for k in range(len(specs)):
+        fitters.append(make_fitter(cases[k], pdirs[k], mode, ext=ext))
+        digests.append(fitter_digest(fitters[k]))
+    for step, (k, si) in enumerate(plan):
+        got = fit(fitters[k], case['sources'][si])
+        viol, diff = history_verdict(cases[k], ref[(k, si)], got)
+        if diff:
+            return CaseResult(False, violates=viol,
+                              detail='interleaved fitters %r, plan %r, step %d (%s): fitter %d, created before fitters %r, no longer '
+                                     'returns what a fresh fitter of its package returns for source %d: %s'
+                                     % (specs, plan, step, mode, k, list(range(k + 1, len(specs))), si, diff))
+        for j in range(len(specs)):
+            if fitter_digest(fitters[j]) != digests[j]:
+                return CaseResult(False, violates=(None if case.get('zero') else True),
+                                  detail='interleaved fitters %r, plan %r, step %d (%s): the arrays of fitter %d changed since it was '
+                                         'created' % (specs, plan, step, mode, j))
+    return None
+
+
+RUNNERS = dict(filter_perm=run_filter_perm, model_perm=run_model_perm, scale=run_scale, history=run_history,
+               interleaved=run_interleaved)
 
 
 def run_case(case, use_model=True):
@@ -749,7 +898,7 @@ def search(seed, tier, disagreeing):
     found, tried = [], 0
     pool = list(disagreeing)
     i = 0
-    for kind in ('filter_perm', 'model_perm', 'scale', 'history'):
+    for kind in ('filter_perm', 'model_perm', 'scale', 'history', 'interleaved'):
         for _ in range(12):
             rng = case_rng(seed, PID + '/search', i)
             mode = 'indep' if kind == 'scale' else rng.choice(['indep', 'dist'])
